@@ -38,7 +38,7 @@ const (
 
 type job struct {
 	Target  string   `json:"target"`
-	Kind    string   `json:"kind"` // "seeds" | "mut" | "files"
+	Kind    string   `json:"kind"` // "seeds" | "mut" | "keyed" | "files"
 	From    int      `json:"from"`
 	To      int      `json:"to"`
 	Seed    int64    `json:"seed"`
@@ -115,6 +115,8 @@ func (j *job) input(t *target, i int) []byte {
 		return loadSeeds().all[i]
 	case "mut":
 		return mutation(j.Seed, t, i)
+	case "keyed":
+		return keyedGrid(i)
 	case "files":
 		b, err := os.ReadFile(j.Files[i])
 		if err != nil {
@@ -392,7 +394,7 @@ func childMain(spec string) {
 				} else if cls == "" {
 					cls = "(unclassified)"
 				}
-				if len(sum.Classes) < 60 || sum.Classes[cls] > 0 {
+				if len(sum.Classes) < 200 || sum.Classes[cls] > 0 {
 					sum.Classes[cls]++
 				} else {
 					sum.Classes["(other)"]++
